@@ -9,8 +9,8 @@
      SKIP <why>                                                                                         *)
 open C11_model
 
-let rec nat_of_int n = if n <= 0 then O else S (nat_of_int (n - 1))
-let rec int_of_nat = function O -> 0 | S n -> 1 + int_of_nat n
+let nat_of_int n = let rec go acc k = if k <= 0 then acc else go (S acc) (k - 1) in go O n
+let int_of_nat n = let rec go acc = function O -> acc | S m -> go (acc + 1) m in go 0 n
 let split c s = String.split_on_char c s
 let words s = List.filter (fun x -> x <> "") (split ' ' s)
 let n_of s = nat_of_int (int_of_string s)
@@ -61,6 +61,11 @@ let parse_call tok =
   | ["SN"; n] -> CSignalN (n_of n)
   | ["W"; d; s] -> CWait (n_of d, n_of s)
   | ["T"; d; s] -> CTry (n_of d, n_of s)
+  (* default arguments of the C++ signatures: wait(size_t delta = 1, size_t slack = 0), try_acquire likewise *)
+  | ["W1"; d] -> CWait (n_of d, O)
+  | ["W0"] -> CWait (S O, O)
+  | ["T1"; d] -> CTry (n_of d, O)
+  | ["T0"] -> CTry (S O, O)
   | _ -> raise (Bad ("call " ^ tok))
 
 (* split the words after the header at "|" *)
@@ -70,6 +75,16 @@ let blocks ws =
     | "|" :: r -> go [] (List.rev cur :: acc) r
     | w :: r -> go (w :: cur) acc r in
   match go [] [] ws with _ :: bs -> bs | [] -> []
+
+(* key=value tokens of the case header (before the first "|") *)
+let header_opt ws key =
+  let rec go = function
+    | [] | "|" :: _ -> None
+    | w :: r ->
+      let k = key ^ "=" in
+      let lk = String.length k in
+      if String.length w >= lk && String.sub w 0 lk = k then Some (String.sub w lk (String.length w - lk)) else go r in
+  go ws
 
 type 'a folded = Accepted of 'a * int | Rejected of int * string * string
 
@@ -126,18 +141,22 @@ let handle case_line harness_line =
        end else
          Printf.sprintf "OK final=%d alldone=%d check=%d events=%d" fin
            (b2i (List.for_all (fun t -> doneb s (nat_of_int t)) (range n))) (b2i chk) k)
-  | ("bm" | "bs" as kind) :: yield :: _strategy :: spur :: _seed :: rest ->
+  | ("bm" | "bs" as kind) :: yield :: _strategy :: spur :: seed :: rest ->
+    let silbits = (match header_opt rest "sil" with Some b -> b | None -> "") in
+    let sil g = let g = int_of_nat g in g < String.length silbits && silbits.[g] = '1' in
+    let ymode = int_of_string yield and seed = int_of_string seed in
+    let yfun t g = ymode = 1 || (ymode = 2 && (int_of_nat t + int_of_nat g + seed) mod 2 = 1) in
     let gens = (match blocks rest with [g] -> List.map int_of_string g | _ -> raise (Bad "gens")) in
     let n = List.length gens in
     let spur = spur <> "0" in
     let ngens = List.map nat_of_int gens in
     if kind = "bm" then begin
-      let s0 = binit (nat_of_int n) ngens in
+      let s0 = binit (nat_of_int n) sil ngens in
       let (res, evs) = fold_trace (bstep spur) s0 toks in
       match res with
-      | Rejected (i, tok, w) -> Printf.sprintf "REJECT at=%d token=%s why=%s check=%d" i tok w (b2i (bar_check0 false (nat_of_int n) evs))
+      | Rejected (i, tok, w) -> Printf.sprintf "REJECT at=%d token=%s why=%s check=%d" i tok w (b2i (bar_check0 false (nat_of_int n) sil evs))
       | Accepted (s, k) ->
-        let chk = bar_check0 false (nat_of_int n) evs in
+        let chk = bar_check0 false (nat_of_int n) sil evs in
         let fin = int_of_nat (stp s) in
         if deadlock then
           let blocked = List.filter (fun t -> bsleepb s (nat_of_int t)) (range n) in
@@ -150,12 +169,12 @@ let handle case_line harness_line =
             (b2i (List.for_all (fun t -> bdoneb s (nat_of_int t) && int_of_nat (bgen s (nat_of_int t)) = List.nth gens t) (range n)))
             (b2i chk) k
     end else begin
-      let s0 = sinit (nat_of_int n) (yield <> "0") ngens in
+      let s0 = sinit (nat_of_int n) yfun sil ngens in
       let (res, evs) = fold_trace sstep s0 toks in
       match res with
-      | Rejected (i, tok, w) -> Printf.sprintf "REJECT at=%d token=%s why=%s check=%d" i tok w (b2i (bar_check0 true (nat_of_int n) evs))
+      | Rejected (i, tok, w) -> Printf.sprintf "REJECT at=%d token=%s why=%s check=%d" i tok w (b2i (bar_check0 true (nat_of_int n) sil evs))
       | Accepted (s, k) ->
-        let chk = bar_check0 true (nat_of_int n) evs in
+        let chk = bar_check0 true (nat_of_int n) sil evs in
         let fin = int_of_nat (sstp s) in
         if deadlock then
           let blocked = List.filter (fun t -> sspinb s (nat_of_int t)) (range n) in
